@@ -1014,6 +1014,25 @@ func (lc *leaderController) CommitOffset() int64 {
 	return wal.InvalidOffset
 }
 
+// DurableCommitOffset is used by the WAL trimmer: the database is not durable at every commit (it has
+// no write-ahead log of its own), so the entries it has applied may only leave the log once it was flushed.
+func (lc *leaderController) DurableCommitOffset() (int64, error) {
+	if !lc.TryRLock() {
+		// The controller is changing state or closing (which waits for the trimmer): nothing can be
+		// trimmed in this round
+		return wal.InvalidOffset, nil
+	}
+	defer lc.RUnlock()
+
+	if lc.isClosed() {
+		return wal.InvalidOffset, nil
+	}
+	if err := lc.db.Flush(); err != nil {
+		return wal.InvalidOffset, err
+	}
+	return lc.db.ReadCommitOffset()
+}
+
 func (lc *leaderController) GetStatus(_ *proto.GetStatusRequest) (*proto.GetStatusResponse, error) {
 	lc.RLock()
 	defer lc.RUnlock()
